@@ -1,5 +1,7 @@
 import MlModel.Lemmas.PiterFinal
 import MlModel.Lemmas.PiterLock
+import MlModel.Lemmas.PiterDead
+import MlModel.Lemmas.PiterVariantStep
 /-!
 # C13 — parallel iteration yields the sequential multiset and releases its threads
 
@@ -19,10 +21,27 @@ What is proved here, and what is inherited:
 * `C13_multiset`, `C13_multiset_distrib`, `C13_returns`, `C13_clean_end` — safety, proved outright from
   the clean-run invariant (`Lemmas/PiterClean*.lean`), which reuses the queue's `DataInv`
   (exactly-once, `Lemmas/QueueInv.lean`) through the embedding `qcfg`.
-* `C13_threads_end_partial` — "every quiescent configuration is final" is the deadlock-freedom of this LTS;
-  it is **inherited as the hypothesis `hlive`** (the queue's liveness is being proved separately,
-  `C04Live`); what is proved here is everything around it: final ⇒ every producer finished and
-  `shutdown()` has returned; `shutdown` is enabled exactly when every task has finished
+* `C13_no_deadlock`, `C13_threads_end` — **deadlock freedom of this LTS is a theorem** (it used to be the
+  hypothesis `hlive` of `C13_threads_end_partial`): every reachable configuration in which no thread has an
+  enabled step is final — every pool task has run to its end and `shutdown()` has returned — for every
+  capacity, batch size, `max_workers` (≥ 1 or unbounded), `num_steps`, stop-on-end flag, inputs, row function
+  and every non-empty list of producers (`piter_multiplex` raises `ValueError` on an empty one).  The queue's
+  no-lost-wake-up invariant J1 ∧ J2 ∧ K1 ∧ K2 (`Lemmas/QueueLiveDefs.lean`) is **transferred through the
+  embedding** `qcfg` (`C13_no_lost_wakeup`; `Lemmas/QueueLiveTweak.lean`, `Lemmas/PiterLive.lean`): each step
+  of this LTS is a queue step, a change of fields the invariant does not read, an outcome of
+  `next(iterator)` that the queue LTS simulates on an adjusted source, or the only consumer turning into a
+  stopper.  On top: control invariants (`Lemmas/PiterCtl.lean`) and the lock-order / pool-gate / shutdown
+  argument (`Lemmas/PiterDead.lean`; `C13_stuck_all_parked`, `C13_pool_gate`).
+  **On `max_workers`**: in this one-queue LTS no relation between `max_workers` and the number of tasks is
+  needed — a running task never waits for a queued one (it waits only for the consumer, which is not a
+  pool task), so `max_workers = 1` with any number of tasks is covered.  The open finding F-C13-pool-small
+  needs TWO queues in one pool (tasks of the first level block on the bounded input queue that only the
+  not yet started tasks of the second level drain) and is outside this LTS (see manifest `level_note`).
+* `C13_variant`, `C13_bounded_executions`, `C13_terminates` — **termination**: an explicit measure `Psi`
+  (the queue's `Phi` on the embedded configuration + the cost of the inputs, of the pending outputs and of the
+  consumer's phase) strictly decreases on every step, so no execution is infinite, and every execution that
+  cannot be extended has all helper threads finished and the pool shut down.
+* around it: `shutdown` is enabled exactly when every task has finished
   (`C13_shutdown_enabled`, `C13_shutdown_joins`); failures and stop requests are sticky and make
   `enqueue_done` hold for good (`C13_done_sticky`); once `enqueue_done` holds no producer parks again
   (`C13_no_park_after_done`) and a task that only starts then returns after three steps without
@@ -163,25 +182,161 @@ theorem C13_final_quiescent (hd : c.allDone = true) : Quiescent F c := by
     | true => simp only [hp, if_true, beq_iff_eq] at this; simp [hp, this]
     | false => simp only [hp, Bool.false_eq_true, if_false, beq_iff_eq] at this; simp [hp, this]
 
+/-! #### deadlock freedom -/
+
+/-- **The queue's no-lost-wake-up invariant holds in every reachable configuration of the
+parallel-iteration LTS** (on the embedded queue configuration `qcfg c`: same shared state, the queue part
+of every thread) — transferred from the queue LTS, not re-proved. -/
+theorem C13_no_lost_wakeup (h : Reachable F (Piter.init cap bm mw ns soe inputs prods) c) :
+    J1 (qcfg c) ∧ J2 (qcfg c) ∧ K1 (qcfg c) ∧ K2 (qcfg c) :=
+  let v := (invs_reachable h).2.1.live
+  ⟨v.j1, v.j2, v.k1, v.k2⟩
+
+/-- **Lock-order acyclicity**: in a quiescent reachable configuration the three queue locks and the input
+lock are free, no producer is inside `next(iterator)`, and every thread is done, or a pool task that has
+not started, or parked on a condition variable without having been notified (the consumer in `get_batch`,
+a producer in `put`). -/
+theorem C13_stuck_all_parked (h : Reachable F (Piter.init cap bm mw ns soe inputs prods) c) (hq : Quiescent F c) :
+    (∀ l, c.sh.owner l = none) ∧ c.ilock = none ∧
+    ∀ (tid : Tid) (t : PThread), c.ths[tid]? = some t →
+      t.q.pc = .done ∨ (t.q.pc = .start ∧ t.isProd = true) ∨
+      (consWakePc t.q.pc = true ∧ tid ∉ c.sh.deqNotified ∧ t.isProd = false ∧ t.cpc = .iter) ∨
+      (prodWakePc t.q.pc = true ∧ tid ∉ c.sh.enqNotified ∧ t.isProd = true) := by
+  obtain ⟨hb, hql, hc, hil⟩ := invs_reachable h
+  have hl := hql.live.base.lock
+  exact ⟨stuck_locks_free hb.static hl hq, (stuck_no_enext hc hil hq).1,
+    fun tid t ht => stuck_shape hb hc hil hl hq ht⟩
+
+/-- **The pool gate**: a submitted task that has not started can start whenever fewer than `max_workers`
+tasks are running (always, for an unbounded pool) — in particular as soon as a running one has ended. -/
+theorem C13_pool_gate {tid : Tid} {t : PThread} (ht : c.ths[tid]? = some t) (hp : t.isProd = true)
+    (hpc : t.q.pc = .start) (hsub : tid ≤ c.nsub) (hfree : c.maxWorkers = 0 ∨ c.running < c.maxWorkers) :
+    (Piter.step F c tid false).isSome = true := by
+  unfold Piter.step
+  simp only [ht, hp, if_true, hpc]
+  rcases hfree with h | h <;> simp [hsub, h]
+
+/-- **No deadlock.**  Every reachable configuration — any schedule, any capacity (bounded or not), any
+`max_batch_size`, any `max_workers` (0 = unbounded, or ≥ 1, **smaller than the number of tasks or not**), any
+`num_steps`, with or without stop-on-end, any inputs with failing items at any position, any row function —
+is final or has an enabled step.  `hne`: there is at least one producer (`piter_multiplex` raises
+`ValueError` otherwise; with none the consumer waits for ever, see the example below — the specified
+behaviour of `max_enqueuer = 0`). -/
+theorem C13_no_deadlock (hne : prods ≠ [])
+    (h : Reachable F (Piter.init cap bm mw ns soe inputs prods) c) :
+    c.allDone = true ∨ ∃ tid alt, (Piter.step F c tid alt).isSome = true := by
+  by_cases hq : ∀ tid alt, Piter.step F c tid alt = none
+  · left
+    obtain ⟨hb, hql, hc, hil⟩ := invs_reachable h
+    refine stuck_final hb hql hc hil ?_ hq
+    rw [nProd_reachable h, nProd_init]
+    exact List.length_pos_iff.mpr hne
+  · right
+    obtain ⟨tid, hq⟩ := Classical.not_forall.mp hq
+    obtain ⟨alt, hs⟩ := Classical.not_forall.mp hq
+    exact ⟨tid, alt, by cases hst : Piter.step F c tid alt with
+      | none => exact absurd hst hs
+      | some _ => rfl⟩
+
 /-- **Every helper thread finishes and the pool is shut down** — in every quiescent configuration
 reachable under any schedule: on exhaustion, after a failure at any position of the input or of the row
-function, after an early stop after any number of steps.
+function, after an early stop after any number of steps.  No liveness hypothesis: deadlock freedom is
+`C13_no_deadlock`.  In a quiescent configuration every producer task has run to its end — so
+`shutdown()`, which is only enabled then (`C13_shutdown_joins`), has returned — and the consumer is past
+`shutdown`.
 
-*Inherited*: `hlive`, the deadlock-freedom of this LTS ("a quiescent configuration is final"; the
-corresponding statement for the queue LTS is the liveness half of C04/C05, proved separately; on the
-real code it is what the deterministic scheduler checks on every run: outcome `done`, never `deadlock`).
-*Proved*: in a final configuration every producer task has run to its end — so `shutdown()`, which is
-only enabled then (`C13_shutdown_joins`), has returned — and the consumer is past `shutdown`.
+("There is no infinite execution" is `C13_variant` / `C13_bounded_executions` / `C13_terminates` below.) -/
+theorem C13_threads_end (hne : prods ≠ [])
+    (h : Reachable F (Piter.init cap bm mw ns soe inputs prods) c) (hq : Quiescent F c) :
+    (∀ t ∈ c.ths, t.isProd = true → t.q.pc = .done) ∧ (∀ t0, c.ths[0]? = some t0 → t0.cpc = .fin) ∧
+    c.producersDone = true := by
+  have hd : c.allDone = true := by
+    rcases C13_no_deadlock hne h with h1 | ⟨tid, alt, h1⟩
+    · exact h1
+    · rw [hq tid alt] at h1; cases h1
+  have hb := base_reachable (base_init cap bm mw ns soe inputs prods) h
+  simp only [Piter.Cfg.allDone, List.all_eq_true] at hd
+  refine ⟨?_, ?_, ?_⟩
+  · intro t ht hp
+    have := hd t ht
+    simpa [PThread.done, hp] using this
+  · intro t0 h0
+    have hp : t0.isProd = false := by
+      cases hpp : t0.isProd with
+      | false => rfl
+      | true => exact absurd rfl ((hb.static.role 0 t0 h0).mp hpp)
+    have := hd t0 (List.mem_of_getElem? h0)
+    simpa [PThread.done, hp] using this
+  · simp only [Piter.Cfg.producersDone, List.all_eq_true]
+    intro t ht
+    have := hd t ht
+    cases hp : t.isProd with
+    | false => simp
+    | true => simpa [PThread.done, hp] using this
 
-Full-strength statement (NOT proved here — `_partial`): the same conclusion without `hlive`, i.e.
-`Reachable F (init …) c → Quiescent F c → (∀ t ∈ c.ths, t.isProd → t.q.pc = .done) ∧ (consumer at fin)`,
-together with "there is no infinite execution".  For the queue LTS itself these are now theorems
-(`Properties/C04Live.lean`: `C04_no_lost_wakeup`, `C04_no_deadlock`, `C04_terminates`).  Missing here: lifting
-them through the embedding `qcfg` — the queue LTS fixes every producer's source in its `Prog` while here the
-producers pull from a shared, schedule-dependent input, and the consumer switches from the `get_batch` loop to
-`maybe_stop` — plus the two
-new blocking operations of this layer (the input lock: its owner never blocks while holding it; the pool:
-a queued task starts as soon as a running one ends). -/
+/-! #### termination -/
+
+/-- **Variant.**  The measure `Psi` (`Lemmas/PiterVariantDefs.lean`: the queue's measure `Phi` on the
+embedded configuration + per producer `wA` per pending output, the cost of the items still in its input —
+3 lock steps and `wA` per output of the row function —, of the item in hand and of the current pull + a
+rank of the consumer's phase that pre-pays its `maybe_stop()`) strictly decreases on **every** step of every
+thread, for every capacity, `max_workers`, `num_steps`, stop-on-end flag, inputs (failing items included),
+row function (any number of outputs per row, failures) and producers.  `hbm`: the batch size is positive
+(as in `C04_variant`: the real `get_batch(0)` means "the default"). -/
+theorem C13_variant (hbm : 0 < bm) (h : Reachable F (Piter.init cap bm mw ns soe inputs prods) c)
+    {tid : Tid} {alt : Bool} {lbl : String} {c' : Piter.Cfg} (hs : Piter.step F c tid alt = some (lbl, c')) :
+    Psi F c' < Psi F c :=
+  psi_step_init hbm h hs
+
+/-- **No infinite execution**: from a reachable configuration `c` no execution has more than `Psi F c`
+steps (no fairness assumption, every scheduler). -/
+theorem C13_bounded_executions (hbm : 0 < bm) (h : Reachable F (Piter.init cap bm mw ns soe inputs prods) c)
+    {n : Nat} {c' : Piter.Cfg} (hn : StepsN F c n c') : n ≤ Psi F c := by
+  have := stepsN_bound hbm h hn
+  omega
+
+/-- **Every execution ends with all helper threads finished and the pool shut down**: executions are
+bounded (`C13_bounded_executions`), and an execution that cannot be extended is final
+(`C13_no_deadlock`): every pool task has run to its end, `shutdown()` has returned. -/
+theorem C13_terminates (hbm : 0 < bm) (hne : prods ≠ [])
+    (h : Reachable F (Piter.init cap bm mw ns soe inputs prods) c) {n : Nat} {c' : Piter.Cfg}
+    (hn : StepsN F c n c') :
+    n ≤ Psi F c ∧ (Quiescent F c' → c'.allDone = true ∧ c'.producersDone = true ∧
+      ∀ t0, c'.ths[0]? = some t0 → t0.cpc = .fin) := by
+  refine ⟨C13_bounded_executions hbm h hn, fun hq => ?_⟩
+  have hr := reachable_stepsN h hn
+  obtain ⟨-, h2, h3⟩ := C13_threads_end hne hr hq
+  refine ⟨?_, h3, h2⟩
+  rcases C13_no_deadlock hne hr with h1 | ⟨tid, alt, h1⟩
+  · exact h1
+  · rw [hq tid alt] at h1; cases h1
+
+/-- non-vacuity of `hbm` and a value of the measure (test): `pmap(inc, [1,2], max_parallism=2,
+buffer_size=1)` cannot run for more than `Psi` steps from its initial configuration -/
+example : Psi (evalFn .inc none) (Piter.init 1 4096 3 none false [[.val 1, .val 2]] (sharedSpecs [900, 900])) = 2902 := by
+  decide
+
+/-- non-vacuity of `hne`: the set-ups of the entry points have producers -/
+example : sharedSpecs [900, 900] ≠ [] ∧ multiplexSpecs [900, 901, 902] ≠ [] := by decide
+
+/-- `hne` is necessary (test of the definitions): with no producer the consumer parks in `get_batch` for
+ever — a reachable configuration without enabled step that is not final.  (The real `piter_multiplex`
+rejects an empty list of iterators with `ValueError`.) -/
+example : ∃ c, Reachable (evalFn .ident none) (Piter.init 0 4 0 none false [] []) c ∧
+    Piter.enabled (evalFn .ident none) c = [] ∧ c.allDone = false :=
+  ⟨_, reachable_exec (Piter.init 0 4 0 none false [] []) [0, 0, 0, 0, 0, 0, 0] (by decide), by decide⟩
+
+/-- `max_workers = 1` with three tasks on a bounded queue of capacity 1: covered by `C13_no_deadlock`
+(one-queue LTS: no relation between `max_workers` and the number of tasks is needed) -/
+example {c : Piter.Cfg}
+    (h : Reachable (evalFn .dup none) (Piter.init 1 4096 1 none false [[.val 1], [.val 2], [.val 3]]
+      (multiplexSpecs [900, 901, 902])) c) :
+    c.allDone = true ∨ ∃ tid alt, (Piter.step (evalFn .dup none) c tid alt).isSome = true :=
+  C13_no_deadlock (by decide) h
+
+/-- The earlier form of `C13_threads_end`, under an explicit deadlock-freedom hypothesis `hlive` — kept
+(it also covers `prods = []` for schedules on which the consumer stops by itself); `hlive` is now
+discharged by `C13_no_deadlock` whenever `prods ≠ []`. -/
 theorem C13_threads_end_partial
     (hlive : ∀ c, Reachable F (Piter.init cap bm mw ns soe inputs prods) c → Quiescent F c → c.allDone = true)
     (h : Reachable F (Piter.init cap bm mw ns soe inputs prods) c) (hq : Quiescent F c) :
